@@ -56,6 +56,12 @@ def gen_more(out):
                         out.append(f"{S} era_it {st} {d}")
                 if st + 1 <= cap + 1:
                     out.append(f"{S} era_pos {st}")
+            for st in sorted({-1, 0, 1, k - 1, k, k + 1, cap + 1}):
+                for d in sorted({-1, 0, 1, k - st, k - st + 1, -st}):
+                    if -1 <= st + d <= cap + 1 and -1 <= st <= cap + 1:
+                        for n in (0, 2):
+                            out += [f"{S} rep_it {st} {d} {n}", f"{S} rep_it_ptr {st} {d} {n}", f"{S} rep_it_cstr {st} {d} {n}",
+                                    f"{S} rep_it_fill {st} {d} {n}"]
             for n in sorted({0, 1, room, room + 1, cap, cap + 1, 26}) + [-1, 2**63, 2**64 - cap, 2**32]:
                 out += [f"{S} ctor_ptr {n}", f"{S} ctor_fill {n}", f"{S} asg_fill {n}", f"{S} asg_ptr {n}",
                         f"{S} app_fill {n}", f"{S} resize {n}", f"{S} app_ptr {n}"]
@@ -241,13 +247,15 @@ def gen(tier, rng):
             for i in list(range(0, k + 3)) + BIG:
                 out += [f"ivec {cap} {k} at {i}", f"ivec {cap} {k} cat {i}"]
     for n in range(0, 5):
-        out += [f"span {n} front 0 0", f"span {n} back 0 0", f"sv {n} front 0 0", f"sv {n} back 0 0"]
+        out += [f"span {n} front 0 0", f"span {n} back 0 0", f"sv {n} front 0 0", f"sv {n} back 0 0", f"wsv {n} front 0 0", f"wsv {n} back 0 0"]
         args = list(range(0, n + 3)) + BIG + [2**64 - n, 2**64 - n - 1]
         for a in args:
             out += [f"span {n} idx {a} 0", f"span {n} first {a} 0", f"span {n} last {a} 0",
-                    f"sv {n} idx {a} 0", f"sv {n} rmp {a} 0", f"sv {n} rms {a} 0"]
+                    f"sv {n} idx {a} 0", f"sv {n} rmp {a} 0", f"sv {n} rms {a} 0",
+                    f"wsv {n} idx {a} 0", f"wsv {n} rmp {a} 0", f"wsv {n} rms {a} 0"]
             for b in list(range(0, n + 3)) + [-1, -2, 2**64 - 1 - a if a >= 0 else 5, 2**63]:
-                out += [f"span {n} subspan {a} {b}", f"sv {n} substr {a} {b}", f"sv {n} copy {b} {a}"]
+                out += [f"span {n} subspan {a} {b}", f"sv {n} substr {a} {b}", f"sv {n} copy {b} {a}",
+                        f"wsv {n} substr {a} {b}", f"wsv {n} copy {b} {a}", f"sv {n} cmp3 {a} {b}", f"wsv {n} cmp3 {a} {b}"]
     # compile-time forms first<Count>() / last<Count>() / subspan<Offset, Count>() on a span of dynamic extent, and the
     # run-time forms on spans of static extent 0 and 3
     for n in range(0, 5):
